@@ -267,7 +267,8 @@ REJECT = [
     ('double_op', ['1++2', '1**2', '1//2', '2^^3', 'x*/y', 'x+*y', 'x-/y', 'x^*2', '1|||2', '1||||2', '--x', '-+x', '1+', '*2', '/x', '^2', 'x^', 'x||', '||x', '1 + + 2']),
     ('juxtaposition', ['2x)', '(1)(2)', 'x y z(', '2(3)', '(x)y', 'x(1)(2)', '[1][2]', '3 4 +', '1.2.3', 'x_{1}{2}', ')(', 'x)(y']),
     ('empty', ['()', '[]', 'f1()', '(())', 'x+()', '[[]]', 'f1(,)', 'f1(1,)', 'f1(,1)', '[1,]', '[,1]', '[1,,2]', 'g2(1,,2)']),
-    ('foreign', ['1×2', '6÷3', 'x²', '１+1', 'x=1', 'x<y', '1;2', 'a&b', '$x', 'x!', '#1', 'x?y', '2\\3', '"x"', 'x@y', '1 + 1', 'x_{}', 'x^{}', '{x}', 'x_{1', 'é', 'π']),
+    ('foreign', ['1×2', '6÷3', 'x²', '１+1', 'x=1', 'x<y', '1;2', 'a&b', '$x', 'x!', '#1', 'x?y', '2\\3', '"x"', 'x@y', '1 + 1', 'x_{}', 'x^{}', '{x}', 'x_{1', 'é', 'π',
+                 '１２３', '٣.٥', '۴۲', '1０', '1e٣', '-２', ' ４２ ', '२०', '+٣', '.５', '４２e1', '1 ０', 'ｘ', 'ｓin(1)', '1\u00a0+ 1', '1\u20092']),
 ]
 
 
@@ -382,6 +383,35 @@ def run(ctx):
                 got = py_eval(s)
                 if got[0] == 'val':
                     ctx.violation('string outside the grammar (%s) was given a value' % fam, {'s': s, 'family': fam}, impl=repr(got))
+    # (D') look-alike characters: one ASCII digit / letter of a valid string replaced by a non-ASCII digit (same value under float()/int()) or a
+    # fullwidth letter: outside the grammar, whether the string is parsed, evaluated or graded
+    from mitxgraders import NumericalGrader, FormulaGrader
+    UD = ['٠١٢٣٤٥٦٧٨٩', '۰۱۲۳۴۵۶۷۸۹', '０１２３４５６７８９', '०१२३४५६७८९']
+    base = ['12', '3.5', '-2', '1e3', '.5', '2.50', '1 000', '+7', 'x+12', '2*3', '2^10', 'sin(1)', 'a_1', 'x', '7', '42', '2e-2']
+    look = []
+    for b in base:
+        for _ in range(ctx.scale(2, 8)):
+            idx = [i for i, ch in enumerate(b) if ch in '0123456789' or ch.isalpha()]
+            i = rng.choice(idx)
+            rep = rng.choice(UD)[int(b[i])] if b[i].isdigit() else chr(ord(b[i]) + 0xFEE0)
+            look.append(b[:i] + rep + b[i + 1:])
+    look = sorted(set(look))
+    pys = flush_tree(ctx, parser, look, 'reject:lookalike')
+    ng, fg = NumericalGrader(answers='42'), FormulaGrader(answers='42', variables=['x'])
+    for s2, p in zip(look, pys):
+        ctx.case({'s': s2, 'family': 'lookalike', 'impl': p}, nontrivial_key=('rej', s2), kind='reject:lookalike')
+        if p != 'ERR':
+            ctx.violation('string with a non-ASCII digit/letter was accepted by the parser', {'s': s2, 'family': 'lookalike'}, impl=p)
+        got = py_eval(s2)
+        if got[0] == 'val':
+            ctx.violation('string with a non-ASCII digit/letter was given a value', {'s': s2, 'family': 'lookalike'}, impl=repr(got))
+        for g in (ng, fg):
+            try:
+                r = with_alarm(lambda: g(None, s2), 10)
+                ctx.violation('string with a non-ASCII digit/letter was graded instead of being reported as unparsable', {'s': s2, 'family': 'lookalike', 'grader': type(g).__name__}, impl=repr(r)[:200])
+            except Exception as exc:
+                if type(exc).__name__ not in ('UnableToParse', 'CalcError', 'InvalidInput') and not isinstance(exc, __import__('mitxgraders').exceptions.StudentFacingError):
+                    ctx.violation('unexpected error class for a non-ASCII digit/letter', {'s': s2, 'family': 'lookalike'}, impl=type(exc).__name__)
     # (E) number literal formats and suffixes through the evaluator
     lits = []
     for m in ['0', '7', '12', '3.', '.5', '2.50', '0.125', '00012.5']:
